@@ -142,7 +142,13 @@ func (s *Translator) buildPairwiseDirectionlessTraversalPatternRoot(traversalSte
 		}
 	)
 
+	// When the pattern opens a query part that ends in WITH, the frame before it is the wrapper frame of that part,
+	// which is still being defined; the bound endpoints are read from the frame before the wrapper.
 	previousFrame := traversalStep.Frame.Previous
+	if validPrevious, hasValidPrevious := s.previousValidFrame(traversalStep.Frame); hasValidPrevious {
+		previousFrame = validPrevious
+	}
+
 	pairwiseEdgeConstraint := buildDirectionlessPairwiseEdgeConstraintForRefs(
 		boundEndpointIDReference(previousFrame, traversalStep.LeftNode),
 		boundEndpointIDReference(previousFrame, traversalStep.RightNode),
@@ -150,7 +156,7 @@ func (s *Translator) buildPairwiseDirectionlessTraversalPatternRoot(traversalSte
 	)
 	nextSelect.From = append(nextSelect.From, pgsql.FromClause{
 		Source: pgsql.TableReference{
-			Name: pgsql.CompoundIdentifier{traversalStep.Frame.Previous.Binding.Identifier},
+			Name: pgsql.CompoundIdentifier{previousFrame.Binding.Identifier},
 		},
 		Joins: []pgsql.Join{{
 			Table: pgsql.TableReference{
@@ -171,7 +177,7 @@ func (s *Translator) buildPairwiseDirectionlessTraversalPatternRoot(traversalSte
 
 	// Only apply endpoint inequality when the bound nodes are different, to allow for self-referential relationships
 	if traversalStep.LeftNode.Identifier != traversalStep.RightNode.Identifier {
-		nextSelect.Where = pgsql.OptionalAnd(boundEndpointInequality(traversalStep.Frame.Previous, traversalStep), nextSelect.Where)
+		nextSelect.Where = pgsql.OptionalAnd(boundEndpointInequality(previousFrame, traversalStep), nextSelect.Where)
 	}
 
 	return pgsql.Query{Body: nextSelect}, nil
@@ -499,7 +505,13 @@ func (s *Translator) buildPairwiseDirectionlessTraversalPatternRootWithOuterCorr
 		}
 	)
 
+	// When the pattern opens a query part that ends in WITH, the frame before it is the wrapper frame of that part,
+	// which is still being defined; the bound endpoints are read from the frame before the wrapper.
 	previousFrame := traversalStep.Frame.Previous
+	if validPrevious, hasValidPrevious := s.previousValidFrame(traversalStep.Frame); hasValidPrevious {
+		previousFrame = validPrevious
+	}
+
 	pairwiseEdgeConstraint := buildDirectionlessPairwiseEdgeConstraintForRefs(
 		boundEndpointIDReference(previousFrame, traversalStep.LeftNode),
 		boundEndpointIDReference(previousFrame, traversalStep.RightNode),
@@ -520,7 +532,7 @@ func (s *Translator) buildPairwiseDirectionlessTraversalPatternRootWithOuterCorr
 
 	// Only apply endpoint inequality when the bound nodes are different, to allow for self-referential relationships
 	if traversalStep.LeftNode.Identifier != traversalStep.RightNode.Identifier {
-		nextSelect.Where = pgsql.OptionalAnd(boundEndpointInequality(traversalStep.Frame.Previous, traversalStep), nextSelect.Where)
+		nextSelect.Where = pgsql.OptionalAnd(boundEndpointInequality(previousFrame, traversalStep), nextSelect.Where)
 	}
 
 	return pgsql.Query{Body: nextSelect}, nil
